@@ -89,8 +89,8 @@ package fiber
 //     the same answer (bounded stand-in, part E: no disagreement), so only soundness of the shortcut is demanded.
 //@ func (*App).addPrefixToRoute
 //@   requires route-given: route != nil
-// (frame: the five fields of the clone; the rest is the frame of parseRoute, which builds the parser in place)
-//@   modifies route.Path, route.path, fields(route.routeParser), route.root, route.star,
+// (frame: the six fields of the clone; the rest is the frame of parseRoute, which builds the parser in place)
+//@   modifies route.Path, route.path, route.Params, fields(route.routeParser), route.root, route.star,
 //@ ..   routeParser.wildCardCount, routeParser.plusCount, heap(E_string), heap(E_p_fiber_Constraint), heap(E_p_fiber_routeSegment),
 //@ ..   routeSegment.ComparePart, routeSegment.Length, routeSegment.PartCount, routeSegment.HasOptionalSlash, routeSegment.IsLast
 //@   ensures same-route: result == route
